@@ -30,6 +30,8 @@ inductive Step where
   | privateNew                   -- statedb.New(ctx, …), not published
   | evmAdd (a : Nat) (d : Int)   -- a balance change made by the interpreter in the thread's StateDB
   | bankAdd (a : Nat) (d : Int)  -- a bank operation on the thread's own context, then SyncStateDBWithAccount
+  | bankOther (a : Nat) (d : Int) -- a bank operation that moves another denom than the gas token: every override guards the sync with
+                                 -- findEtherBalanceChangeFromCoins (T1 fact), so nothing is mirrored; the tracked balances do not move
   | commit                       -- StateDB.Commit: the view is written into the context the StateDB is bound to
   | flush                        -- CommitCacheCtx at a precompile entry (OnRunStart): the same write-back, in the middle of a call;
                                  -- Keeper.SetAccBalance writes through the embedded BaseKeeper, so nothing is mirrored (T1 fact)
@@ -60,6 +62,7 @@ def exec (me : Who) (w : W) : Step → W
     match w1.ptr with
     | some p => setDb w1 p (upd (db w1 p) a (store w1 me a))
     | none => w1
+  | .bankOther _ _ => w
   | .commit =>
     match handle w me with
     | some p => setStore w p (db w p)
@@ -83,7 +86,7 @@ def runAlone (w : W) (ts : List Step) : W := ts.foldl (exec .T) w
     precompile (private StateDB, interpreter steps, the flush of that private StateDB when a precompile is entered), and plain
     reads (no steps at all) -/
 def Step.isolated : Step → Bool
-  | .privateNew | .evmAdd _ _ | .flush => true
+  | .privateNew | .evmAdd _ _ | .flush | .bankOther _ _ => true
   | _ => false
 
 /-! concrete programs -/
@@ -96,6 +99,9 @@ def simulateEthTx : List Step := [.useOrPublish, .evmAdd 5 9, .commit, .clear]
 /-- eth_call that carries value into a precompile query method: the value transfer dirties the caller in the private StateDB, the
     precompile entry flushes it into the query's own branch -/
 def ethCallValuePrecompileQuery : List Step := [.privateNew, .evmAdd 2 (-7), .evmAdd 8 7, .flush]
+/-- eth_call that runs FunToken.sendToBank of a coin-born mapping: interpreter steps in the private StateDB (the ERC20 burn), the
+    precompile entry's flush, and a bank operation on another denom -/
+def ethCallSendToBankOther : List Step := [.privateNew, .evmAdd 6 (-4), .flush, .bankOther 6 4]
 def genesis : W := { storeT := fun a => if a ≤ 5 then 100 else 0, storeQ := fun a => if a ≤ 5 then 100 else 0 }
 
 end Nibiru.Concurrency
